@@ -149,13 +149,13 @@ package gts
 //@   ensures del_gone: n < 0 && i <= ambiguous.Start && ambiguous.End <= i - n ==> is(out, Between) && int(out.(Between)) == i
 //@   assigns nothing
 
-// Join / Order on two contiguous parts that do not abut (the shape produced by a split).
+// Join in general (any number of parts): only safety and purity are assumed here; the
+// two-part case is proved separately as Join@two below.
 //@ func Join(locs ...Location) (out Location)
 //@   prop C02 C04 C06
-//@   trusted LocationList is a pointer-linked list, outside the verified subset so far; only the two-range case is assumed
+//@   trusted LocationList is a pointer-linked list of unbounded length; the general reduction (a fold of the Push merge table) is outside the verified subset. Join@two is proved.
 //@   requires len(locs) >= 1
-//@   ensures len(locs) == 2 && is(locs[0], Ranged) && is(locs[1], Ranged) && locs[0].(Ranged).End != locs[1].(Ranged).Start ==>
-//@      is(out, Joined) && len(out.(Joined)) == 2 && out.(Joined)[0] == locs[0] && out.(Joined)[1] == locs[1]
+//@   ensures !isnil(out)
 //@   assigns nothing
 
 //@ func Order(locs ...Location) (out Location)
@@ -448,3 +448,57 @@ package gts
 //@   ensures disjoint: forall k in 0..len(out): forall x: covSP(out[k], x) ==> 0 <= x && x < n && !covR(r, x)
 //@   ensures cover: forall x: 0 <= x && x < n && !covR(r, x) ==> 0 <= GC(x) && GC(x) < len(out) && covSP(out[GC(x)], x)
 //@   ensures merged: len(out) > 0 && is(out[0], Regions) ==> !covR(r, 0) && !covR(r, n-1)
+
+// ---------------------------------------------------------------------------
+// location.go: join reduction (C06).  One Push of a leaf location onto a one-node list:
+// the merge table.  A merge never changes the set of residues and keeps their order.
+
+//@ spec func leafwf(l Location) bool =
+//@   (is(l, Ranged) ==> l.(Ranged).Start < l.(Ranged).End) && (is(l, Ambiguous) ==> l.(Ambiguous).Start < l.(Ambiguous).End)
+
+//@ func (ll *LocationList) Push(loc Location, force bool)
+//@   prop C06 C12
+//@   requires !isnil(ll) && isnil(ll.Next) && !isnil(loc) && !is(loc, Joined)
+//@   requires !(is(ll.Data, Complemented) && is(loc, Complemented))
+//@   requires leafwf(ll.Data) && leafwf(loc)
+//@   ensures empty: isnil(old(ll.Data)) ==> ll.Data == loc && isnil(ll.Next)
+//@   ensures appended: !isnil(ll.Next) ==> ll.Data == old(ll.Data) && ll.Next.Data == loc && isnil(ll.Next.Next)
+//@   ensures merged_set: isnil(ll.Next) ==> (forall x: cov(ll.Data, x) <==> (cov(old(ll.Data), x) || cov(loc, x)))
+//@   ensures merged_order: isnil(ll.Next) && !isnil(old(ll.Data)) ==> (forall x: forall y: cov(old(ll.Data), x) && cov(loc, y) ==> x <= y)
+//@   ensures merged_partial: isnil(ll.Next) && is(old(ll.Data), Ranged) && is(loc, Ranged) ==> is(ll.Data, Ranged) &&
+//@      ll.Data.(Ranged).Partial.Partial5 == old(ll.Data).(Ranged).Partial.Partial5 && ll.Data.(Ranged).Partial.Partial3 == loc.(Ranged).Partial.Partial3
+//@   ensures merge_rule: is(old(ll.Data), Ranged) && is(loc, Ranged) ==> (isnil(ll.Next) <==>
+//@      (old(ll.Data).(Ranged).End == loc.(Ranged).Start && (force || (old(ll.Data).(Ranged).Partial.Partial3 && loc.(Ranged).Partial.Partial5))))
+//@   ensures result_kind: isnil(ll.Next) && !isnil(old(ll.Data)) ==> (ll.Data == old(ll.Data) || ll.Data == loc || (is(old(ll.Data), Ranged) && is(loc, Ranged) && is(ll.Data, Ranged)))
+//@   assigns ll
+
+//@ func (ll *LocationList) Len() (n int)
+//@   prop C06
+//@   requires !isnil(ll) && (isnil(ll.Next) || (isnil(ll.Next.Next) && !isnil(ll.Next.Data)))
+//@   ensures isnil(ll.Next) ==> n == ite(isnil(ll.Data), 0, 1)
+//@   ensures !isnil(ll.Next) ==> n == 2
+//@   assigns nothing
+
+//@ func (ll *LocationList) Slice() (out []Location)
+//@   prop C06
+//@   requires !isnil(ll) && (isnil(ll.Next) || isnil(ll.Next.Next))
+//@   ensures fresh(out)
+//@   ensures isnil(ll.Next) ==> len(out) == 1 && out[0] == ll.Data
+//@   ensures !isnil(ll.Next) ==> len(out) == 2 && out[0] == ll.Data && out[1] == ll.Next.Data
+//@   assigns nothing
+
+// Join of exactly two leaf parts (the shape produced by splits, wraps and re-merges), proved
+// from the real loop unrolled twice over the Push contract.
+//@ func Join@two(locs ...Location) (out Location)
+//@   prop C06 C02 C04 C10
+//@   requires len(locs) == 2 && !isnil(locs[0]) && !isnil(locs[1]) && !is(locs[0], Joined) && !is(locs[1], Joined)
+//@   requires !(is(locs[0], Complemented) && is(locs[1], Complemented)) && leafwf(locs[0]) && leafwf(locs[1])
+//@   requires !(is(locs[0], Ranged) && is(locs[1], Point) && locs[0].(Ranged).End == int(locs[1].(Point)))
+//@   ensures kept: is(out, Joined) ==> len(out.(Joined)) == 2 && out.(Joined)[0] == locs[0] && out.(Joined)[1] == locs[1]
+//@   ensures merged_set: !is(out, Joined) ==> (forall x: cov(out, x) <==> (cov(locs[0], x) || cov(locs[1], x)))
+//@   ensures merged_order: !is(out, Joined) ==> (forall x: forall y: cov(locs[0], x) && cov(locs[1], y) ==> x <= y)
+//@   ensures ranges: is(locs[0], Ranged) && is(locs[1], Ranged) ==> (!is(out, Joined) <==> locs[0].(Ranged).End == locs[1].(Ranged).Start)
+//@   ensures ranges_merged: is(locs[0], Ranged) && is(locs[1], Ranged) && !is(out, Joined) ==> is(out, Ranged) &&
+//@      out.(Ranged).Partial.Partial5 == locs[0].(Ranged).Partial.Partial5 && out.(Ranged).Partial.Partial3 == locs[1].(Ranged).Partial.Partial3
+//@   assigns nothing
+//@   loop 1: unroll 2
